@@ -249,20 +249,40 @@ def matched_rule(ctx, r):
     HAS = "rg::search::SearchResult::has_match"
     f = facts.fn("rg::search")
     eb = ExprBuilder(f)
-    ok_payload = [eb.operand(st["rv"]["ops"][0]) for bb, j, st in f.stmts()
-                  if st["k"] == "assign" and st["place"]["l"] == 0 and st["rv"]["k"] == "agg" and st["rv"].get("variant") == "Ok"]
-    if ok_payload and all(mentions_call(p, HAS) for p in ok_payload):
-        # assume no file has a match: the function must then report false
-        s0 = Sccp(f, call_model=lambda c, argv: I(0) if c.is_(HAS) else None).run([(0, {})])
-        from ..flow import value_set
-        vals = {x for v in s0.ret_values.values() for x in value_set(v) if not (x and x[1] == "Err")}
-        if vals == {V("Ok", I(0))}:
-            r.ok("search|result", "derives from has_match(); with has_match() == false everywhere the result is Ok(false)", fn=f)
-        else:
-            r.bad("search|result", "rg::search can report matched=true although no search result has a match "
-                  "(returns %s under has_match()==false)" % vals, fn=f)
-    else:
+    from ..flow import value_set
+
+    def results(call_val, init=None):
+        sx = Sccp(f, call_model=(lambda c, argv: I(call_val) if c.is_(HAS) else None) if call_val is not None else None,
+                  stmt_values=init or {}).run([(0, {})])
+        out = set()
+        for v in sx.ret_values.values():
+            for x in value_set(v):
+                if x and x[0] == "v" and x[1] == "Err":
+                    continue
+                if x and x[0] == "v" and x[2] is not None and x[2][0] == "s":
+                    out |= {V(x[1], y) for y in x[2][1]}
+                else:
+                    out.add(x)
+        return out
+    # the flag's initialisation: `<bool local> = false` (tried one by one below)
+    inits = [(bb, j) for bb, j, st in f.stmts() if st["k"] == "assign" and not st["place"]["p"] and st["rv"]["k"] == "use" and
+             (op_const(st["rv"].get("a", {})) or {}).get("val") == 0 and f.local_ty(st["place"]["l"]) == "bool"]
+    if not f.calls_to(HAS):
         r.bad("search|result", "rg::search's result does not derive from SearchResult::has_match", fn=f)
+    else:
+        # no file has a match ⇒ false; every file has one ⇒ true is reported; and a flag that is up stays up whatever
+        # the later files say (the answer wherever it is combined: `m = m || h`, `if h { m = true }`, `m |= h`)
+        none, every = results(0), results(1)
+        sticky = any(results(None, {k: I(1)}) == {V("Ok", I(1))} for k in inits)
+        if none != {V("Ok", I(0))}:
+            r.bad("search|result", "rg::search can report matched=true although no search result has a match "
+                  "(returns %s under has_match()==false)" % none, fn=f)
+        elif V("Ok", I(1)) not in every:
+            r.bad("search|result", "rg::search's result does not derive from SearchResult::has_match (%s although every file matched)" % every, fn=f)
+        elif not sticky:
+            r.bad("search|result", "rg::search forgets an earlier file's match: once a file has matched the result must stay true", fn=f)
+        else:
+            r.ok("search|result", "derives from has_match(): none ⇒ Ok(false), all ⇒ Ok(true), and a match once seen is kept", fn=f)
     # search_parallel: store(true) guarded by has_match
     for clo in facts.closures_of("rg::search_parallel"):
         stores = [c for c in clo.calls() if c.path.endswith("Atomic::store")]
